@@ -1,7 +1,14 @@
 (* C04 — a small array-heap model (buffers, views, in-place updates, fresh allocations) of
    mprocess.convert_var_to_hss + MProcess.calc_proj_eq_constraint_with_var, to state "never modifies its argument".
    Definitions only.  A NumPy array is a reference (buffer id, offset) into the heap; reshape / indexing / iteration
-   give VIEWS (same buffer), copy.copy / np.insert / np.hstack / np.reshape(list) allocate a fresh buffer. *)
+   give VIEWS (same buffer), copy.copy / copy.deepcopy / np.insert / np.hstack / np.reshape(list) allocate fresh buffers.
+
+   [h_proj_eq_with_var]            the code WITH repair fixes/mprocess-proj-eq-var-mutates-argument.diff
+                                   (hss = copy.deepcopy(convert_var_to_hss(...))): this is the faithful model, the one the
+                                   harness executes and compares with the implementation.
+   [h_proj_eq_with_var_prefix]     the code AS IT WAS BEFORE that repair (the hss are views of var when the flag is False and
+                                   `hs[0] -= vec / len(hss)` writes through them).  Kept only for the `_refuted` theorem and for
+                                   the diagnostic the harness prints when the defect re-appears. *)
 From Coq Require Import Arith Bool List.
 From QV.Core Require Import OF Sums Mat.
 From QV.Model Require Import QObj C04_Proj.
@@ -24,24 +31,29 @@ Definition alloc (h : heap) (fresh : nat) (c : nat -> F) : heap := fun b i => if
 (* vector.reshape((m, n, n)) iterated: m views of length n*n into the same buffer *)
 Definition hss_views (base : aref) (m n : nat) : list aref :=
   map (fun x => {| buf := buf base; off := (off base + x * (n * n))%nat |}) (seq 0 m).
+Definition aref0 : aref := {| buf := 0; off := 0 |}.
 (* convert_var_to_hss: flag -> copy.copy(var) + np.insert (a NEW buffer [fresh]) ; otherwise  vector = var  (NO copy) *)
 Definition h_convert_var_to_hss (flag : bool) (fresh m n : nat) (h : heap) (var : aref) : heap * list aref :=
   if flag then (alloc h fresh (mp_var_to_stacked F true m n (rd h var)), hss_views {| buf := fresh; off := 0 |} m n)
   else (h, hss_views var m n).
 Definition read_hss (n : nat) (h : heap) (hss : list aref) : nat -> @mat F :=
-  fun x a b => rd h (nth x hss {| buf := 0; off := 0 |}) (a * n + b)%nat.
+  fun x a b => rd h (nth x hss aref0) (a * n + b)%nat.
 (* the body of calc_proj_eq_constraint_with_var after the conversion *)
 Definition h_spread (flag : bool) (fresh2 m n : nat) (h1 : heap) (hss : list aref) : heap * aref :=
   let vec := fun b => fold_right (fun r acc => rd h1 r b + acc) 0 hss - e0 b in          (* vec = sum hs[0]; vec[0] -= 1 *)
   let h2 := fold_left (fun hh r => isub hh r n (fun b => vec b / of_nat (length hss))) hss h1 in   (* hs[0] -= vec / len(hss) *)
   (alloc h2 fresh2 (mp_hss_to_var F flag m n (read_hss n h2 hss)), {| buf := fresh2; off := 0 |}).     (* convert_hss_to_var: new array *)
-(* as coded *)
-Definition h_proj_eq_with_var (flag : bool) (fresh1 fresh2 m n : nat) (h : heap) (var : aref) : heap * aref :=
-  let '(h1, hss) := h_convert_var_to_hss flag fresh1 m n h var in h_spread flag fresh2 m n h1 hss.
-(* with the proposed fix (findings/C04-1.md): hss = copy.deepcopy(convert_var_to_hss(...)) *)
-Definition h_proj_eq_with_var_fixed (flag : bool) (fresh1 fresh2 fresh3 m n : nat) (h : heap) (var : aref) : heap * aref :=
-  let '(h1, hss) := h_convert_var_to_hss flag fresh1 m n h var in
-  let h1' := alloc h1 fresh3 (mp_stack F n (read_hss n h1 hss)) in
-  h_spread flag fresh2 m n h1' (hss_views {| buf := fresh3; off := 0 |} m n).
-End C04Heap.
+(* copy.deepcopy(list of m arrays of n*n entries): new storage, disjoint from everything else (modelled as m consecutive
+   windows of one fresh buffer; element k of the copy is element k mod n*n of the array number k / (n*n)) *)
+Definition h_deepcopy (fresh3 m n : nat) (h1 : heap) (hss : list aref) : heap * list aref :=
+  (alloc h1 fresh3 (fun k => rd h1 (nth (k / (n * n)) hss aref0) (k mod (n * n))), hss_views {| buf := fresh3; off := 0 |} m n).
 
+(* the code with repair mprocess-proj-eq-var-mutates-argument:  hss = copy.deepcopy(convert_var_to_hss(...)) *)
+Definition h_proj_eq_with_var (flag : bool) (fresh1 fresh2 fresh3 m n : nat) (h : heap) (var : aref) : heap * aref :=
+  let '(h1, hss) := h_convert_var_to_hss flag fresh1 m n h var in
+  let '(h1', hss') := h_deepcopy fresh3 m n h1 hss in
+  h_spread flag fresh2 m n h1' hss'.
+(* AS CODED BEFORE repair mprocess-proj-eq-var-mutates-argument:  hss = convert_var_to_hss(...)  (no copy) *)
+Definition h_proj_eq_with_var_prefix (flag : bool) (fresh1 fresh2 m n : nat) (h : heap) (var : aref) : heap * aref :=
+  let '(h1, hss) := h_convert_var_to_hss flag fresh1 m n h var in h_spread flag fresh2 m n h1 hss.
+End C04Heap.
